@@ -4797,6 +4797,12 @@ func (p *Posix) GetObjectLegalHold(_ context.Context, bucket, object, versionId 
 		return nil, fmt.Errorf("get object lock config: %w", err)
 	}
 
+	if len(data) == 0 {
+		// an empty attribute (e.g. a sidecar file whose write was
+		// interrupted) carries no legal hold
+		return nil, s3err.GetAPIError(s3err.ErrNoSuchObjectLockConfiguration)
+	}
+
 	result := data[0] == 1
 
 	return &result, nil
